@@ -14,7 +14,7 @@ def _tiling_vc(vc):
 
 
 def _tiling_vc_laplace(vc):
-    return vc.kind == "ghost-assert" and ("loop[3].before" in vc.name or "loop[3.0].before" in vc.name)
+    return vc.kind == "ghost-assert" and ("loop[3].before" in vc.name or "loop[3.0].before" in vc.name or "loop[3.2].before" in vc.name)
 
 
 def check(run):
@@ -41,9 +41,30 @@ def check(run):
 
 
 def _on_failed(vc, r):
+    """replay of a refuted job-partition obligation: forced hardware_concurrency values on the kernels rebuilt from the tree,
+    once in this process and once in a child whose OpenMP runtime grants fewer threads than jobs (OMP_THREAD_LIMIT=2)"""
+    import json
+    import os
+    import subprocess
+    import sys
+
     from contracts import C04
 
     rep = C04.replay_threads()
+    if not rep.get("reproduced"):
+        env = dict(os.environ, OMP_THREAD_LIMIT="2", OMP_DYNAMIC="true")
+        code = ("import sys, json; sys.path.insert(0, %r); from contracts import C04; "
+                "print('REPLAY=' + json.dumps(C04.replay_threads(), default=str))" % os.path.dirname(os.path.dirname(os.path.abspath(__file__))))
+        try:
+            p = subprocess.run([sys.executable, "-c", code], env=env, capture_output=True, text=True, timeout=1800)
+            line = next((l for l in p.stdout.splitlines() if l.startswith("REPLAY=")), None)
+            if line:
+                rep2 = json.loads(line[7:])
+                rep2["environment"] = {"OMP_THREAD_LIMIT": "2", "OMP_DYNAMIC": "true"}
+                if rep2.get("reproduced"):
+                    rep = rep2
+        except Exception as e:      # noqa: BLE001
+            rep["child_error"] = str(e)[:200]
     return {"replay": {"kind": "threads"}, "reproduced": rep.get("reproduced", False), "observed": rep}
 
 
